@@ -423,6 +423,61 @@ def cases(tier, seed):
         return None
       yield desc, ('clone', name), thunk
 
+    # a deprecated alias maps onto its replacement once: a later set_params of the replacement wins, and clone reproduces it
+    for alias, repl in ALIASES.items():
+      sig = inspect.signature(getattr(ml, name).__init__).parameters
+      if alias not in sig or repl not in sig or (alias == 'k' and name != 'LMNN'):
+        continue
+
+      def alias_seq(name=name, alias=alias, repl=repl):
+        v1, v2 = (0.5, 0.25) if repl == 'tol' else (7, 5)
+        inp = '%s(%s=%r); set_params(%s=%r); clone' % (name, alias, v1, repl, v2)
+        with _quiet():
+          try:
+            est = getattr(ml, name)(**{alias: v1})
+            est.set_params(**{repl: v2})
+            c = clone(est)
+          except Exception as e:
+            return dict(tag='clone-equivalent', input=inp, observed='raised ' + _raised(e), signature='%s alias %s then set_params(%s) then clone raises' % (name, alias, repl))
+          if c.get_params(deep=False)[repl] != v2 or est.get_params(deep=False)[repl] != v2:
+            return dict(tag='set_params-roundtrip', input=inp, observed='%s is %r in the estimator and %r in its clone (set_params gave %r)'
+                        % (repl, est.get_params(deep=False)[repl], c.get_params(deep=False)[repl], v2), signature='%s alias %s overrides a later set_params' % (name, alias))
+        return None
+      yield 'alias %s then set_params(%s) then clone on %s' % (alias, repl, name), ('clone', 'set_params', name), alias_seq
+
+    # an estimator whose fit RAISED (after its inputs were prepared) is still not fitted: queries raise NotFittedError
+    bogus = {'LMNN': dict(init='bogus'), 'NCA': dict(init='bogus'), 'MLKR': dict(init='bogus'), 'MMC': dict(init='bogus'), 'MMC_Supervised': dict(init='bogus'),
+             'LSML': dict(prior='bogus'), 'LSML_Supervised': dict(prior='bogus'), 'ITML': dict(prior='bogus'), 'ITML_Supervised': dict(prior='bogus'),
+             'SDML': dict(prior='bogus'), 'SDML_Supervised': dict(prior='bogus'), 'LFDA': dict(n_components=D.d + 2), 'RCA': dict(n_components=D.d + 2),
+             'RCA_Supervised': dict(n_components=D.d + 2)}.get(name)
+    if bogus is not None:
+      def failed_fit(name=name, bogus=bogus):
+        with _quiet():
+          est = getattr(ml, name)(**dict(FAST[name], **bogus))
+          try:
+            est.fit(*fit_args(name, D, False))
+            return None                 # this configuration is accepted after all: nothing to observe
+          except Exception:
+            pass
+          for m in QUERY_METHODS:
+            if not hasattr(est, m) or m in ('set_threshold', 'calibrate_threshold'):
+              continue                  # (setting a threshold does not use the learned metric)
+            try:
+              r = getattr(est, m)(*query_args(name, m, D, False))
+              got = 'returned %s' % type(r).__name__
+            except NotFittedError:
+              continue
+            except AttributeError as e:
+              if m == 'predict' and 'threshold' in str(e):
+                continue                # the documented answer of a pairs classifier that has no threshold (yet)
+              got = 'raised ' + _raised(e)
+            except Exception as e:
+              got = 'raised ' + _raised(e)
+            return dict(tag='unfitted-use-raises-NotFittedError', input='%s(%s).fit(...) raised; then .%s(<valid arguments>)' % (name, bogus, m),
+                        observed=got + ' (expected NotFittedError)', signature='%s.%s after a failed fit' % (name, m))
+        return None
+      yield 'queries after a failed fit of %s(%s)' % (name, bogus), ('unfitted', name), failed_fit
+
     # set_params on a used estimator: the new value is what the estimator uses (it behaves like a clone built from its parameters)
     def swap(name=name):
       with _quiet():
